@@ -234,14 +234,14 @@ def tagread(run, fx):
             continue
         q = (e.get('fq') or '')
         base = q.split('<')[0].split('::')[-1]
-        if base == 'strlen':
-            continue
+        if base in ('strlen', 'strnlen'):
+            continue                      # both stop at the terminator: they read nothing beyond it
         def _mentions(a):
             # str itself (not merely strlen(str)) appears in the argument
             st_ = [fn.N(a)]
             while st_:
                 x = st_.pop()
-                if x['k'] in ('CallExpr', 'CXXMemberCallExpr') and (x.get('fq') or '').split('::')[-1] == 'strlen':
+                if x['k'] in ('CallExpr', 'CXXMemberCallExpr') and (x.get('fq') or '').split('::')[-1] in ('strlen', 'strnlen'):
                     continue
                 if x['k'] == 'DeclRefExpr' and x.get('vid') == strv:
                     return True
@@ -453,6 +453,17 @@ def _selector(fn, cond, strv):
         return False
     if is_strlen(cond):
         return ('strlen', None)
+    if cond['k'] == 'CallExpr' and cond.get('fq') in ('strnlen', 'std::strnlen') and len(cond.get('args') or []) == 2:
+        # strnlen(str, N) is min(strlen(str), N) and, like strlen, reads nothing beyond the terminator
+        a = fn.strip_all_casts(cond['args'][0])
+        v = fn.strip_all_casts(cond['args'][1]).get('v')
+        if v is None:
+            for w in fn.walk(cond['args'][1]):
+                if w.get('v') is not None:
+                    v = w['v']
+                    break
+        if a.get('vid') == strv and v is not None:
+            return ('min', v)
     if cond['k'] == 'CallExpr' and cond.get('fq') in ('graphite2::min', 'graphite2::max', 'std::min', 'std::max'):
         a, b = cond['args']
         kind = cond['fq'].split('::')[-1]
